@@ -89,8 +89,14 @@ StepOrient == /\ Ev.k = "orient"
               /\ obs' = Ev.o
               /\ UNCHANGED <<val, mag, valid, hist>>
 
+(* a call of the history raised an exception inside the library *)
+StepRaise == /\ Ev.k = "raise"
+             /\ Verd(FALSE, "call-raises")
+             /\ act' = <<"raise">>
+             /\ UNCHANGED <<val, mag, valid, hist, obs>>
+
 TNext == /\ l < Len(Traces[tid].ev)
-         /\ (StepCtor \/ StepSetNorm \/ StepSetNone \/ StepUpdate \/ StepGetNorm \/ StepOrient)
+         /\ (StepCtor \/ StepSetNorm \/ StepSetNone \/ StepUpdate \/ StepGetNorm \/ StepOrient \/ StepRaise)
          /\ l' = l + 1
          /\ UNCHANGED <<mesh, nv, p0, v0, tid>>
 TSpec == TInit /\ [][TNext]_tvars
